@@ -1,7 +1,7 @@
 (* Evaluation of the Rcb / Rib correspondence cases (C03): model vs
    implementation (exact ids) and the certified checker [check_bisect] on the
    implementation's ids.  Depends on the model only. *)
-From Coupe Require Import Lib.Prelude Lib.SFloat Lib.Report Model.Rcb.
+From Coupe Require Import Lib.Prelude Lib.SFloat Lib.Report Model.Rcb Gen.RcbGen.
 From Coq Require Import Floats.SpecFloat.
 Open Scope Z_scope.
 
@@ -16,8 +16,11 @@ Definition p0_of (c : caseR) : list N := repeat 18446744073709551615%N (r_plen c
 (* the cut search makes at most ~300 iterations on binary32 (Proofs/RcbProofs.v: search_fuel) *)
 Definition run_fuel : nat := 2000.
 
+(* the variant of the cut search the current source implements (translator) *)
+Definition rcb_variant : variant := mkvariant rcb_old_rules rcb_by_coord rcb_probe_max rcb_safe_mid.
+
 Definition model_of (c : caseR) : res (list N) :=
-  rcb false run_fuel seq_sched (r_D c) (r_k c) (f64_of_bits (r_tol c)) (pts_of c) (r_ws c) (p0_of c).
+  rcb rcb_variant run_fuel seq_sched (r_D c) (r_k c) (f64_of_bits (r_tol c)) (pts_of c) (r_ws c) (p0_of c).
 
 (* usage contract: matching lengths, D coordinates per point, finite
    coordinates whose binary32 image is finite too, non-negative weights,
